@@ -52,14 +52,16 @@ def tipEffect (op : String) : Option TipEffect :=
   | ["identical", groups] =>
     -- the new names are those not yet in the tree: decided against the before-tree by the caller
     ((groups.splitOn "+").filter (· ≠ "")).mapM parseStrList |>.map fun gs => .add gs.flatten
-  | ["rename", _, _] | ["renameauto", _, _, _] | ["renameregex", _, _, _, _] | ["addquotes", _, _] | ["rmquotes", _, _] =>
+  | ["rename", _, _] | ["renameauto", _, _, _] | ["renameregex", _, _, _, _] | ["addquotes", _, _] | ["rmquotes", _, _]
+  | ["annotate", _, _] =>
     some .sameCount
   | ["subtree", p] =>
     match parsePath p with
     | some (some q) => some (.subtree q)
     | _ => none
   | ["reinitinternal"] | ["updatetipindex"] | ["cutedges", _] | ["addbip", _, _, _, _] | ["rotateone", _, _] | ["clearlengths", _, _] | ["clearsupports"] | ["clearcomments"] | ["scalelengths", _, _, _]
-  | ["roundlengths", _, _, _] => some .same
+  | ["roundlengths", _, _, _] | ["addlength", _, _, _] | ["clearpvalues"] | ["clearnodecomments"] | ["clearedgecomments"]
+  | ["cleartermedgecomments"] | ["scalesupports", _] | ["roundsupports", _] => some .same
   | ["identicalone", _, nw] => (unescape nw).map fun n => .add [n]
   | ["collapseclade", _, name, _] => (unescape name).map fun n => .subsetWith [n]
   | ["resolvenamed"] => some (.add [])     -- the names of the named inner nodes: filled in by the caller
@@ -161,6 +163,38 @@ def modelOf (op extra : String) (inSync sizesOK : Bool) (tb : T) : ModelRes :=
     | some r => ofRes (applyOp (.scaleLengths r (flagOf i) (flagOf x)) tb)
     | none => .noModel
   | ["roundlengths", "0", i, x] => ofRes (applyOp (.roundLengths0 (flagOf i) (flagOf x)) tb)
+  | ["rotateone", p, _] =>
+    match (parsePath p).bind id, parseDraws extra with
+    | some q, some ds => ofRes (applyOp (.rotateOne q ds) tb)
+    | _, _ => .skip "no-draws"
+  | ["addlength", q, i, x] =>
+    match parseRat? q with
+    | some r => ofRes (applyOp (.addLength r (flagOf i) (flagOf x)) tb)
+    | none => .noModel
+  | ["clearpvalues"] => ofRes (applyOp .clearPvalues tb)
+  | ["clearnodecomments"] => ofRes (applyOp .clearNodeComments tb)
+  | ["clearedgecomments"] => ofRes (applyOp .clearEdgeComments tb)
+  | ["cleartermedgecomments"] => ofRes (applyOp .clearTermEdgeComments tb)
+  | ["scalesupports", q] =>
+    match parseRat? q with
+    | some r => ofRes (applyOp (.scaleSupports r) tb)
+    | none => .noModel
+  | ["roundsupports", "0"] => ofRes (applyOp .roundSupports0 tb)
+  | ["annotate", c, lines] =>
+    match ((lines.splitOn "+").filter (· ≠ "")).mapM parseStrList with
+    | some ls => ofRes (annotate (flagOf c) ls tb)
+    | none => .noModel
+  | ["collapseclade", strict, name, names] =>
+    match unescape name, parseStrList names with
+    | some n, some l => ofRes (collapseClade (flagOf strict) n l tb)
+    | _, _ => .noModel
+  | ["addbip", p, slots, l, sp] =>
+    match (parsePath p).bind id, ((slots.splitOn ",").filter (· ≠ "")).mapM String.toNat?, parseRat? l, parseRat? sp with
+    | some q, some S, some len, some sup =>
+      (match addBipAt S len sup q tb with
+       | some t' => .ok t'
+       | none => .err)
+    | _, _, _, _ => .noModel
   | ["shuffle", _] =>
     match parseDraws extra with
     | some ds => ofRes (applyOp (.shuffle ds) tb)
@@ -274,6 +308,17 @@ def editOpOf (op extra : String) : Option EditOp :=
   | ["clearcomments"] => some .clearComments
   | ["scalelengths", q, i, x] => (parseRat? q).map fun r => .scaleLengths r (flagOf i) (flagOf x)
   | ["roundlengths", "0", i, x] => some (.roundLengths0 (flagOf i) (flagOf x))
+  | ["rotateone", p, _] =>
+    match (parsePath p).bind id, parseDraws extra with
+    | some q, some ds => some (.rotateOne q ds)
+    | _, _ => none
+  | ["addlength", q, i, x] => (parseRat? q).map fun r => .addLength r (flagOf i) (flagOf x)
+  | ["clearpvalues"] => some .clearPvalues
+  | ["clearnodecomments"] => some .clearNodeComments
+  | ["clearedgecomments"] => some .clearEdgeComments
+  | ["cleartermedgecomments"] => some .clearTermEdgeComments
+  | ["scalesupports", q] => (parseRat? q).map .scaleSupports
+  | ["roundsupports", "0"] => some .roundSupports0
   | ["rename", olds, news] =>
     match parseStrList olds, parseStrList news with
     | some o, some n => some (.rename (o.zip n))
@@ -293,7 +338,7 @@ def indexInSync : List String → Bool
   | [] => true
   | op :: earlier =>
     let n := opName op
-    if n == "graftedge" then false
+    if n == "graftedge" || n == "annotate" then false   -- Annotate renames tips without refreshing the tip index
     else if ["reinit", "prune", "merge", "shuffle", "identical", "rename", "renameauto", "renameregex", "addquotes",
              "rmquotes", "grafttree", "subtree", "clone", "collapseclade", "resolvenamed", "updatetipindex"].contains n then true
     else indexInSync earlier
@@ -380,6 +425,8 @@ def handle (op : String) (f : List String) : Verdict :=
         tagIf ((allPaths t).any fun p => match subtreeAt t p with | some s => s.kids.length ≥ 3 && !p.isEmpty | none => false) "multifurcating" ++
         tagIf (noSingleAll t) "nosingle" ++ tagIf (!nsb) "before-has-single" ++
         tagIf (after == before) "unchanged-step" ++ tagIf hypInv "hyp-inv-before" ++
+        tagIf (last == "prune" && tb.kids.length == 1) "prune-root-tip" ++
+        tagIf (last == "prune" && tb.kids.length == 1 && !(t.tipNames.contains tb.name)) "prune-removes-root-tip" ++
         tagIf (textWF Gotree.Newick.goCodec t) "hyp-textwf" ++
         (match eo with
          | some e => ["editop"] ++ tagIf (opPre nsb e tb) "hyp-oppre"
